@@ -25,6 +25,16 @@ CLAIMS = {
         text="DupFaithful, ReplaceFaithful and DcReplaceFaithful are invariants of the Registry machine checked by TLC on 3-slot instances and a depth-bounded 4-slot instance that can duplicate real trees; every transition ending in duplicate / replace / dataclasses.replace is replayed: all nodes new, structure and identities per position, registration, ids not shared with registered originals, id determinism, unchanged init fields are the very same objects. Recorded random histories are validated by Trace_Registry.tla.",
         note="Trusted: as C03. The parenthetical id clause is required only when the original carries no collision suffix (DESIGN 3.3).",
         design="4.1, 6 C14"),
+    "C04": dict(
+        technique="TLA+ state machine (Registry.tla Ser / Deser as a fold with id forcing, RoundTrip invariant) + TLC transition export replayed in 4 formats + TLA+ trace validation of recorded histories and of a fresh second process",
+        text="Serialization is part of the Registry machine: a payload is the tree by value with ids, Deser is the fold lookup-or-create-and-force-id. TLC checks RoundTrip / RegExact over every interleaving of construct, twin construct, drop, drop-all, detach_self between Ser and Deser (3 slots exhaustive, 4 slots depth-bounded, both digest modes); every transition ending in a deserialization is replayed in dict, JSON, MessagePack and YAML. Recorded random histories over eleven classes (one with every representable property kind) and ten origins of every kind are validated step by step by Trace_Registry.tla, and payloads (incl. index-based sources) are read back in a fresh interpreter whose alpha is validated by the same trace spec.",
+        note="Trusted: TLC, orjson / msgpack / PyYAML / mashumaro for values inside the stated representable kinds (pools avoid NaN, lone surrogates, > 64-bit ints).",
+        design="4.1, 6 C04"),
+    "C10": dict(
+        technique="TLA+ action properties (Immutable, MembershipFrame, FailFrame) on Registry.tla + Observe actions replayed with per-step fingerprints of every live node",
+        text="In the Registry machine no action changes the record of a surviving slot (Immutable) and registry membership changes only in detach / detach_self / replace on the receiver's subtree (MembershipFrame); Observe actions stand for every read-only operation kind (traversals, Tree queries, xpath, patterns, visitors, transformers, comparison, hashing, rich printing, accessors, (de)serialization, setattr / delattr on every field) and are UNCHANGED. TLC exports every transition; the driver fingerprints every live node before each call and compares after it, and compares the whole abstract state with the spec's. Recorded histories are checked the same way at every step.",
+        note="Trusted: TLC; a field counts as changed if it holds another node object, or a non-node value that is not equal / not of the same type.",
+        design="6 C10"),
     "C05": dict(
         technique="TLA+ oracle (Heap.tla Pre/Post/Bfs/Gather) + TLC heap enumeration replayed into the library + TLC trace validation of recorded traversals",
         text="TLC enumerates every heap of <= N objects over three class profiles and, for the tree rooted at the newest object, every prune x filter subset; the expected dfs/bfs/gather/children observations are computed by the TLA+ operators of Heap.tla and replayed against the real library (order, position info, offered sets). Random trees of up to 40 objects are recorded from the library and accepted or rejected line by line by Trace_Traverse.tla.",
